@@ -5,7 +5,10 @@ import vlib
 
 HARNESS = ["proxy"]
 ASSUMPTIONS = [
-    "TCP, net/rpc and encoding/json are runtime; the model carries the retry loop, what net/rpc + jsonrpc treat as an error, and the field mapping",
+    "TCP, net/rpc and encoding/json are runtime; the model carries the retry loop, what net/rpc + jsonrpc treat as an error, the server methods' "
+    "normalisation (error message never empty, nil byte-slice reply -> empty: ebb9c0a, faf0201), peers.NewPeer's normalisation (b2c4118) and the field mapping",
+    "internal transactions carry peers made by peers.NewPeer or decoded from JSON (the code builds no Peer literal); key and signature strings are "
+    "outputs of the hex / base-36 encoders; a Peer literal with a stray byte is still altered by JSON (control case, documented deviation D1)",
     "per-attempt outcomes are injected by the relay (drop after request / before reply / mid-reply, stall, listener down, connection killed) and by "
     "the handler script; a dial failure followed by a successful dial inside one call cannot be injected (the client retries immediately)",
     "base64 is modelled at the level of 6-bit digits; Go strings are sequences of runes and stray bytes (utf8.DecodeRune classification by the harness)",
@@ -13,27 +16,6 @@ ASSUMPTIONS = [
 ]
 TRUSTED_EXTRA = ["harness/cmd/proxy/relay.go (JSON-message-aware TCP relay) is trusted glue"]
 
-QUIRK = re.compile(r"\b(herre|herren|hokn)\b")
-
-
-def repaired(conn, outs):
-    """(result, dials, deliveries) of a call once the two quirks are repaired: an empty-message error is an error,
-    a nil reply is a reply.  Only used to recognise a repaired implementation on the quirk inputs."""
-    dials = deliveries = 0
-    for o in outs[:3]:
-        if o == "df":
-            conn = False
-            continue
-        if not conn:
-            dials += 1
-        if o in ("cf0", "to0"):
-            conn = False
-            continue
-        deliveries += 1
-        if o in ("ok", "hok", "hokn"):
-            return ("ok", dials, deliveries)
-        conn = False
-    return ("err", dials, deliveries)
 
 
 def run(ctx):
@@ -45,25 +27,14 @@ def run(ctx):
     if rc != 0:
         return dict(findings=[dict(cls="harness-crash", key="proxy rc=%d" % rc, detail=out[-1500:])], coverage={})
     ncases, diffs, raw = vlib.run_model(out, timeout=2400)
-    # a repaired proxy no longer shows the two modelled quirks: a DIFF on a quirk input whose implementation side is the
-    # repaired behaviour is a note (the model must then be updated), not a broken correspondence
-    kept = []
-    for d in diffs:
-        m = re.search(r"impl=(\w+) (\d+) (\d+)", d)
-        if d.startswith("DIFF PX-P") and QUIRK.search(d) and m:
-            toks = d.split("=>")[0].split()
-            i = toks.index("P")
-            if repaired(toks[i + 3] == "1", toks[i + 4:i + 8]) == (m.group(1), int(m.group(2)), int(m.group(3))):
-                ctx["notes"].append("quirk input answered as after the proposed fix (model to be updated): " + d[:160])
-                continue
-        kept.append(d)
+    kept = list(diffs)
     findings, seen, hist, distinct, samples = [], set(), {}, set(), []
     zstats = {}
     for l in out.splitlines():
         if l.startswith("V "):
             t = l.split(None, 3)
             cls, key = t[2], (t[3] if len(t) > 3 else "")
-            sig = (cls, "quirk" if QUIRK.search(key) or "nil" in key else key[:60])
+            sig = (cls, key[:60])
             if sig not in seen:
                 seen.add(sig)
                 findings.append(dict(cls=cls, key=key[:300], detail=l[:800]))
@@ -91,15 +62,24 @@ def run(ctx):
                 samples.append(l[:200])
         elif l.startswith("PX T "):
             hist["tx-run"] = hist.get("tx-run", 0) + 1
+    # the inputs of the three repaired findings must still be generated (they are regression inputs now)
+    n_f1 = sum(1 for l in out.splitlines() if l.startswith("PX P ") and re.search(r"\bherren?\b", l.split("=>")[0]))
+    n_f2 = sum(1 for l in out.splitlines() if l.startswith("PX P ") and re.search(r"\bhokn\b", l.split("=>")[0]))
+    n_f3 = zstats.get("invalid_utf8_raw_inputs", 0)
+    hist["regression_inputs"] = dict(empty_error_message=n_f1, nil_reply=n_f2, invalid_utf8_through_NewPeer=n_f3,
+                                     raw_literal_control_changed=zstats.get("raw_literal_control_changed", 0))
+    if min(n_f1, n_f2, n_f3) == 0:
+        kept.append("regression inputs missing: empty-message=%d nil-reply=%d invalid-utf8=%d" % (n_f1, n_f2, n_f3))
     cov = dict(evaluations=ncases, distinct_nontrivial=len(distinct),
                rule="(1) generated blocks / commit responses / snapshots (nil vs empty slices, binary and non-UTF-8 bytes, all 256 byte values, "
                     "lengths around the base64 group size, large payloads, int64 extremes, many internal transactions with receipts, signature maps) "
                     "sent through SocketAppProxy -> relay -> SocketBabbleProxy and through InmemProxy; handler arguments and returned values compared "
                     "field by field on both ends and with the model's JSON mapping (blocks up to 300-byte strings); (2) transactions (nil, empty, "
                     "binary, large) through SocketBabbleProxy -> relay -> SocketAppProxy and InmemProxy, sequentially and from 3 concurrent clients, "
-                    "order per client by serial; (3) every method (commit, snapshot, restore, state, submit) under every 1- and 2-fault prefix, "
+                    "order per client by serial; invalid-UTF-8 operator strings through peers.NewPeer (regression input of b2c4118, NewPeer compared with the model's "
+                    "new_peer; a Peer literal as control); (3) every method (commit, snapshot, restore, state, submit) under every 1- and 2-fault prefix, "
                     "triple faults, listener down, killed connection, application never started, handler errors (also with an empty message) and nil "
-                    "replies, plus random plans: result class, connections accepted and handler deliveries compared with the model. non-trivial = a call "
+                    "replies (regression inputs of the repaired findings ebb9c0a / faf0201), plus random plans: result class, connections accepted and handler deliveries compared with the model. non-trivial = a call "
                     "with at least one injected fault, or a content case; distinct = distinct (client, method, cached connection, outcomes) / content case",
                samples=samples, histogram=dict(cases=hist, harness=zstats), traces_validated_against_impl=ncases)
     return dict(findings=findings[:12], coverage=cov, corr_diffs=kept[:10])
